@@ -13,7 +13,7 @@ BOUNDS = {"quick": "kernel: candidate + 3 other records with arbitrary presence/
                    "node due or not) over insert (new key / the pending key), update_value (stored / pending node), apply_pending, remove; loops unwound 34",
           "thorough": "as quick plus the table level: 4-bucket table (keys concrete, so bucket indices are concrete), table limit scaled 10 -> 2, inductive step over "
                       "'stored + pending per /24 <= table limit and stored per bucket <= bucket limit' for insert_or_update (new key, existing key, pending key), "
-                      "update_node, update_node_status, remove; one CBMC process at a time with 48 GB"}
+                      "update_node, update_node_status, remove, on tables with one stored node per bucket plus the pending slot (and one 4+1 instance); one CBMC process at a time with 48 GB; two larger instances (3+1 nodes) ran out of 48 GB and are not part of the tier"}
 OUTSIDE = ["real ENR values inside buckets (ENR-valued buckets exhausted 48 GB): the table and bucket code is generic in the value type and the Filter object, "
            "it is instantiated with a 4-byte value type and a filter applying the same counting rule; the real ip_filter is decided separately by the kernel harness",
            "K = 16 and limits 10 / 2 at full scale (the native replay driver runs at full scale with real records)",
@@ -38,8 +38,6 @@ TT = [("c16_small_insert_new_other_bucket", "table: a new node is counted agains
       ("c16_small_insert_existing", "table: re-submitting a stored node with a new record", []),
       ("c16_small_update_node_other_bucket", "table: update_node moving a node into another /24", ["record updated"]),
       ("c16_small_update_node_same_bucket", "table: update_node in the bucket that has the pending node", []),
-      ("c16_insert_new_into_other_bucket", "table (3+1 nodes): new node", ["inserted"]),
-      ("c16_insert_pending_key", "table: re-submitting the pending node", []),
       ("c16_status_and_remove_first", "table: status change / removal promote the pending node under the limits", [])]
 
 
